@@ -191,13 +191,18 @@ def loop(fx):
         op = t["op"].get("mv") or t["op"].get("cp")
         if not op or "p" in op:
             continue
-        is_ka = False
-        for bi, si, st in b.assigns():
-            if st["lhs"].get("l") == op["l"] and "p" not in st["lhs"]:
-                u = st["rv"].get("use", {})
-                pl = u.get("cp") or u.get("mv")
-                if pl and any(e[0] == "f" and e[2] == "keep_alive" for e in pl.get("p", [])):
-                    is_ka = True
+        def from_keep_alive(l, depth=0):
+            # the switch operand is the flag itself or a (chain of) plain copies of it (`let keep_alive = self.config.network.keep_alive;`)
+            for bi, si, st in b.assigns():
+                if st["lhs"].get("l") == l and "p" not in st["lhs"]:
+                    u = st["rv"].get("use", {})
+                    pl = u.get("cp") or u.get("mv")
+                    if pl and any(e[0] == "f" and e[2] == "keep_alive" for e in pl.get("p", [])):
+                        return True
+                    if pl and "p" not in pl and depth < 3 and from_keep_alive(pl["l"], depth + 1):
+                        return True
+            return False
+        is_ka = from_keep_alive(op["l"])
         if not is_ka:
             continue
         off_t = [tb for v, tb in t["targets"] if v == 0]
